@@ -2,6 +2,9 @@
   C10 — helper lemmas for the power-spectrum model (masks, block means, peak ranges, DFT).
 -/
 import Verif.Model.C10
+import Verif.NumReal
+import Mathlib.Tactic.FieldSimp
+import Mathlib.Tactic.Positivity
 import Mathlib.Order.Defs.LinearOrder
 import Mathlib.Tactic.Ring
 import Mathlib.Tactic.Linarith
